@@ -46,7 +46,32 @@ func endToEnd(meta *common.Meta, outDir string) int {
 		{"plain path missing", []string{r("good.go", "missing.go")}, true, false, false},
 		{"glob without match", []string{r("good.go", "nomatch-*.go")}, true, false, false},
 		{"only failing files, skipped", []string{r("broken.go")}, false, false, false},
+		// the group filter end to end, in both flag dialects: an explicit list (also an explicitly EMPTY one) is the selection
+		{"explicit empty enable list", []string{r("good.go", "second.go"), "-@ruleguard.enable="}, false, false, false},
+		{"enable one group by name", []string{r("good.go", "second.go"), "-@ruleguard.enable=userCapZero"}, false, false, true},
+		{"disable one group by name", []string{r("good.go", "second.go"), "-@ruleguard.disable=userCapZero"}, false, true, false},
+		{"enable list with blanks", []string{r("good.go", "second.go"), "-@ruleguard.enable= userCapZero , nosuch"}, false, false, true},
 	}
+	// two rule files that define a group of the SAME name under different tags: the selection by tag picks the variant
+	vdir := filepath.Join(rdir, "variants")
+	variant := func(file, tag, msg string) {
+		common.WriteFile(filepath.Join(vdir, file), "package gorules\n\nimport \"github.com/quasilyte/go-ruleguard/dsl\"\n\n//doc:summary variant\n//doc:tags "+tag+"\nfunc gDup(m dsl.Matcher) {\n\tm.Match(`cap($s) == 0`).Report(\""+msg+"\")\n}\n")
+	}
+	variant("a.go", "style", "user rule userCapZero fired")
+	variant("b.go", "diagnostic", "variant B of gDup fired")
+	vr := func(names ...string) string {
+		var ps []string
+		for _, n := range names {
+			ps = append(ps, filepath.Join(vdir, n))
+		}
+		return "-@ruleguard.rules=" + strings.Join(ps, ",")
+	}
+	cfgs = append(cfgs,
+		cfg{"same-named group in two files, #style selects the first variant", []string{vr("a.go", "b.go"), "-@ruleguard.enable=#style"}, false, false, true},
+		cfg{"same-named group in two files (other order), #style selects the style variant", []string{vr("b.go", "a.go"), "-@ruleguard.enable=#style"}, false, false, true},
+		cfg{"same-named group in two files, the diagnostic variant disabled by tag", []string{vr("a.go", "b.go"), "-@ruleguard.disable=#diagnostic"}, false, false, true},
+		cfg{"same-named group in two files (other order), the diagnostic variant disabled by tag", []string{vr("b.go", "a.go"), "-@ruleguard.disable=#diagnostic"}, false, false, true},
+	)
 	diagRE := regexp.MustCompile(`(?m)^\S*?(api|store|misc)/(a|main)\.go:\d+:\d+: (\w+): (.*)$`)
 	runs := 0
 	env := common.GoEnv()
